@@ -1,5 +1,6 @@
 import Anything.Model.Cli
 import Mathlib.Tactic.ByContra
+import Anything.Generated.Knobs
 /-!
 # C19 — the command line prints exactly what the library computed
 
@@ -100,5 +101,14 @@ theorem C19_value_item (exact : Bool) (pre post : List (Except EvalErr Numeric))
 /-- Non-vacuity: `3/2 m` in exact mode. -/
 example : String.ofList (renderValue true { value := 3 / 2, unit := [(.base .Meter, { power := 1, pfx := 0 })] })
     = "3/2 m" := by decide +kernel
+
+
+/-- **C19 (the display specification of the source is the model's).** `src/bin/any.rs`
+sets twelve digits, exponent threshold twelve, continuation mark on (re-extracted on
+every run): the specification `C19_decimal` says `renderValue` uses. -/
+theorem C19_cli_spec :
+    (⟨Anything.Generated.Knobs.cliLimit, Anything.Generated.Knobs.cliExponentLimit,
+      Anything.Generated.Knobs.cliShowContinuation⟩ : Display.Spec) =
+    { limit := 12, exponentLimit := 12, showContinuation := true } := rfl
 
 end Anything.Props.C19
